@@ -1,5 +1,6 @@
 """Base class of the properties that write a bigWig / bigBed and read it back."""
-from vlib import Prop, CaseT
+import os
+from vlib import Prop, CaseT, run_model
 import bbgen
 
 
@@ -27,3 +28,33 @@ class WigBedProp(Prop):
         for key in ("compress", "pass", "src", "rt", "inmem"):
             tags.add(f"{key}={o[key]}")
         return tags
+
+
+def byte_level_check(self, rep, workdir):
+    """(B) byte-level correspondence: the model writer's bytes vs the real file, where the model applies
+    (uncompressed, manual or no zooms, integer values). Evidence of model fidelity; a mismatch here with the
+    observables intact is a NOTE, not a violation (a layout-preserving rewrite must not raise an alarm)."""
+    stage = []
+    for c in self._last_cases:
+        o = c.opts()
+        if c.kind == "wig" and o.get("compress") == "0" and o.get("zooms") != "auto" and (self._last_impl.get(c.id) or ["x"])[0] == "R ok" \
+                and not (c.tags & {"zero_length_mid", "zero_length_at_0", "zero_length_at_end"}):
+            stage.append(CaseT("wb_" + c.id, "wigbytes", [], c.lines))
+    mo = run_model(stage, os.path.join(workdir, "bytes"))
+    eq = ne = na = 0
+    first = None
+    for sc in stage:
+        ml = (mo.get(sc.id) or ["BYTES na"])[0]
+        il = next((l for l in self._last_impl[sc.id[3:]] if l.startswith("BYTES")), "BYTES ?")
+        if ml == "BYTES na":
+            na += 1
+        elif ml == il:
+            eq += 1
+        else:
+            ne += 1
+            first = first or (sc.id[3:], il, ml)
+    rep.coverage["byte_level_model_writer"] = {"files_compared": eq + ne, "byte_equal": eq, "different": ne, "model_not_applicable": na}
+    if first:
+        rep.notes.append(f"(B) byte-level: model writer and real writer differ on {ne} files (first: case {first[0]}: real `{first[1]}` model `{first[2]}`); observables agree, so this is a note")
+    rep.evals += eq + ne
+
